@@ -283,6 +283,18 @@ def run(tier):
     rep.bounds["str_max_len"] = 3 if tier == "quick" else 4
     for sh in common.pmap_shards(_worker, items, order_seed=rep.seed):
         rep.merge(sh)
+    # literals do not live alone: populations of 7 Int (and 7 Bytes) literals in every order of a frequency profile
+    # (C12's frequency-rank driver) - each literal must still be the value pushed at each of its sites when the
+    # constants are assembled
+    from . import c12
+    pops = []
+    for pool in (["s0", "s1", "s2", "s3", "s5", "L1000", "T"], ["s1", "s127", "L128", "E", "s5", "T", "L1000"],
+                 ["ba", "bb", "bc", "bd", "be", "bf", "bT"]):
+        for names in itertools.permutations(pool):
+            pops.append({"driver": "rank", "names": list(names), "freqs": [4, 4, 3, 3, 2, 2, 2], "size": 7})
+    rep.bounds["literal_populations"] = len(pops)
+    for sh in common.pmap_shards(c12._worker, pops, order_seed=rep.seed):
+        rep.merge(sh)
     rep.counters["distinct_nontrivial"] = rep.counters.get("states", 0)
     rep.assumptions = ["TEAL literal grammar as ported from the go-algorand assembler (vf/avm/tokens.py)",
                        "well-formedness per RFC 4648 (base32 unpadded or fully padded; base64 padded)"]
@@ -290,6 +302,9 @@ def run(tier):
 
 
 def replay(case):
+    if case.get("driver") == "rank":
+        from . import c12
+        return c12.replay(case)
     out = {"counters": {}, "outcomes": {}, "violations": [], "samples": []}
     check_one(case["kind"], case["literal"], out)
     for v in out["violations"]:
